@@ -8,12 +8,15 @@ import re
 
 CONDS = ["defined(A)", "!defined(A)", "defined A || defined B", "(defined A || defined B)", "defined(A) && defined(B)",
          "A == 1", "B > 1", "!(defined(A) && defined(B))", "0", "1", "C", "defined(C) || (A == 1 && !defined(B))",
-         "(defined(A))", "!defined (B)", "A != 1", "defined B"]
+         "(defined(A))", "!defined (B)", "A != 1", "defined B",
+         # && and || yield 0 or 1; integer arithmetic truncates towards zero
+         "(2 && 4) == 1", "(0 || 3) == 1", "(defined(A) && B) == 1", "7/2 == 3", "-7/2 == -3", "-7%2 == -1", "B*3 - 1 >= 5",
+         "(A + 1)/2 == 1"]
 
 
 # ------------------------------------------------------------------ reference evaluator of #if expressions
 def ref_eval(expr: str, table: dict) -> bool:
-    toks = re.findall(r"defined|[A-Za-z_]\w*|\d+|&&|\|\||==|!=|<=|>=|[()!<>]", expr)
+    toks = re.findall(r"defined|[A-Za-z_]\w*|\d+|&&|\|\||==|!=|<=|>=|[()!<>+\-*/%]", expr)
     pos = 0
 
     def peek():
@@ -37,6 +40,12 @@ def ref_eval(expr: str, table: dict) -> bool:
         if t == "!":
             take("!")
             return 0 if primary() else 1
+        if t == "-":
+            take("-")
+            return -primary()
+        if t == "+":
+            take("+")
+            return primary()
         if t == "defined":
             take()
             if peek() == "(":
@@ -57,11 +66,31 @@ def ref_eval(expr: str, table: dict) -> bool:
         except ValueError:
             return 1 if str(val) == "True" else 0
 
-    def cmp_():
+    def cdiv(a, b):
+        q = abs(a) // abs(b)
+        return q if (a < 0) == (b < 0) else -q
+
+    def mul_():
         v = primary()
-        while peek() in ("==", "!=", "<", ">", "<=", ">="):
+        while peek() in ("*", "/", "%"):
             op = take()
             w = primary()
+            v = v * w if op == "*" else (cdiv(v, w) if op == "/" else v - w * cdiv(v, w))
+        return v
+
+    def add_():
+        v = mul_()
+        while peek() in ("+", "-"):
+            op = take()
+            w = mul_()
+            v = v + w if op == "+" else v - w
+        return v
+
+    def cmp_():
+        v = add_()
+        while peek() in ("==", "!=", "<", ">", "<=", ">="):
+            op = take()
+            w = add_()
             v = int({"==": v == w, "!=": v != w, "<": v < w, ">": v > w, "<=": v <= w, ">=": v >= w}[op])
         return v
 
@@ -96,7 +125,7 @@ def reference(lines: list[str], initial: dict):
     for line in lines:
         s = line.strip()
         cur_active = all(f[2] for f in stack)
-        m = re.match(r"#\s*(if |ifdef|ifndef|elif|else|endif|define|undef)\s*(.*)$", s)
+        m = re.match(r"#\s*(if(?=[ (!\t])|ifdef|ifndef|elif|else|endif|define|undef)\s*(.*)$", s)
         if not m:
             out.append(cur_active)
             continue
@@ -156,7 +185,8 @@ def gen_block(rnd, depth, budget):
             budget[0] -= 2
             k = rnd.random()
             if k < 0.5:
-                lines.append(f"#if {rnd.choice(CONDS)}")
+                c = rnd.choice(CONDS)
+                lines.append(f"#if({c})" if rnd.random() < 0.2 else f"#if {c}")
             elif k < 0.75:
                 lines.append(f"#ifdef {rnd.choice('ABC')}")
             else:
@@ -182,7 +212,7 @@ def small_exhaustive():
     for c1 in CONDS:
         for c2 in [None] + CONDS[:6]:
             for has_else in (False, True):
-                lines = [f"#if {c1}", "integer :: a1"]
+                lines = [f"#if({c1})" if (has_else and c2 is None) else f"#if {c1}", "integer :: a1"]
                 if c2 is not None:
                     lines += [f"#elif {c2}", "integer :: a2"]
                 if has_else:
